@@ -506,7 +506,10 @@ def eos_implies_end(ctx, rule):
                                   "of the shared state than the poll does" % (what, r["entry"], r["out"]), where=_w(o))
             else:
                 ctx.ok(rule, "end-of-stream row x poll row (entry %s): the poll returns the end" % r["entry"])
-    ctx.floor(rule, n, 2, what="compatible (end-of-stream row, poll row) pairs")
+    # (a flag that never answers true is allowed - always-false is truthful - so the number of pairs has no floor; what must not
+    # be empty is the set of rows read)
+    ctx.ok(rule, "pairs compared", detail={"true_rows": len(trues), "compatible_pairs": n})
+    ctx.floor(rule, len(outs), 1, what="rows of is_end_stream analysed")
 
 
 def size_hint_table(ctx, rule):
